@@ -475,7 +475,7 @@ pub fn evaluate_single(cfg: &RunCfg, rec: &RunRecord) -> (Vec<Finding>, Facts) {
                         finish_last.map(|o| position(cfg, &o)),
                         begin + announced
                     ));
-                } else if *announced < n && begin + announced != len {
+                } else if *announced < n && begin + announced != len && !cfg.lying_hint() {
                     bad = Some(format!(
                         "chunk [{begin}, {}) is shorter than the chunk size {n} but does not end at the last element ({len})",
                         begin + announced
@@ -639,7 +639,7 @@ pub fn evaluate_single(cfg: &RunCfg, rec: &RunRecord) -> (Vec<Finding>, Facts) {
     }
 
     // ---------------------------------------------------------------- C04 (and C06/C11 via the same model): linearizability
-    let lin_ok_domain = !has_panic && !has_composite;
+    let lin_ok_domain = !has_panic && !has_composite && !cfg.lying_hint();
     if lin_ok_domain {
         let sized = kind.known_size() || cfg.hint == crate::elems::Hint::Exact;
         let m = Model { len, sized };
@@ -756,7 +756,7 @@ pub fn evaluate_single(cfg: &RunCfg, rec: &RunRecord) -> (Vec<Finding>, Facts) {
     }
 
     // ---------------------------------------------------------------- C11: queries
-    if !has_panic {
+    if !has_panic && !cfg.lying_hint() {
         eval_queries(cfg, rec, &dl, &mut out, &mut facts);
     }
 
